@@ -90,6 +90,14 @@ def gen_var(cx, intent=False, in_type=False):
     return leaf("LVariable", name, cx.docs_for(), ts=ts, attrs=attrs, dim=dim, init=init, intent=it, optional=opt)
 
 
+def gen_var_group(cx):
+    rng = cx.rng
+    n = rng.choice([2, 3])
+    spec = rng.choice(["integer", "real(8)", "logical", "character(len=4)", "real*8", "double precision"])
+    return {"g": "LVariable", "names": [cx.name("gv") for _ in range(n)], "docs": cx.docs_for(),
+            "decl": {"spec": spec, "dims": [rng.choice(["", "", "(3)", "(2,2)"]) for _ in range(n)]}}
+
+
 def gen_proc(cx, depth=0, in_interface=False, name=None):
     rng = cx.rng
     k = rng.choice(["KSubroutine", "KFunction"])
@@ -129,6 +137,13 @@ def gen_type(cx, procnames):
         bound = [leaf("LBoundProc", cx.name("b"), cx.docs_for(), target=rng.choice(procnames)) for _ in range(nb)]
         if rng.random() < 0.3:
             finals = [leaf("LFinal", rng.choice(procnames), cx.docs_for())]
+    if procnames and rng.random() < 0.3:
+        bound.append({"g": "LBoundProc", "names": [cx.name("gb") for _ in range(rng.choice([2, 3]))], "docs": cx.docs_for(),
+                      "decl": {"targets": [rng.choice(procnames) for _ in range(3)]}})
+        if len(procnames) > 1 and rng.random() < 0.5:
+            finals.append({"g": "LFinal", "names": rng.sample(procnames, 2), "docs": cx.docs_for(), "decl": {}})
+    if rng.random() < 0.3:
+        comps.append(gen_var_group(cx))
     return container("KType", name, cx.docs_for(), comps + bound + finals, attrs=rng.choice([[], ["public"], ["abstract"]]))
 
 
@@ -144,7 +159,7 @@ def gen_module(cx, modnames, submodule_of=None):
     for _ in range(rng.choice([0, 1, 2])):
         children.append(gen_type(cx, pnames))
     for _ in range(rng.choice([0, 1, 2, 3])):
-        children.append(gen_var(cx))
+        children.append(gen_var(cx) if rng.random() < 0.75 else gen_var_group(cx))
     if rng.random() < 0.3:
         enum_vars = [leaf("LVariable", cx.name("e"), cx.docs_for(), enumerator=True) for _ in range(rng.choice([1, 2, 3]))]
         children.append(container("KEnum", "", cx.docs_for(), enum_vars))
@@ -154,7 +169,11 @@ def gen_module(cx, modnames, submodule_of=None):
         children.append(leaf("LNamelist", cx.name("nml"), cx.docs_for(), vars=["zz"]))
     # interfaces
     if pnames and rng.random() < 0.4:
-        refs = [leaf("LModProcRef", n, []) for n in rng.sample(pnames, rng.choice([1, min(2, len(pnames))]))]
+        picked = rng.sample(pnames, rng.choice([1, min(2, len(pnames))]))
+        if len(picked) > 1 and rng.random() < 0.5:
+            refs = [{"g": "LModProcRef", "names": picked, "docs": cx.docs_for(), "decl": {}}]
+        else:
+            refs = [leaf("LModProcRef", n, []) for n in picked]
         gname = rng.choice([cx.name("gen"), "operator(+)", "assignment(=)", "operator(.dot.)"])
         children.append(container("KInterface", gname, cx.docs_for(), refs, generic=True))
     if rng.random() < 0.3:
@@ -320,7 +339,31 @@ def render_var_decl(cx, v, ind):
     return f"{ind}{', '.join(parts)}{sep}{name}"
 
 
+def render_group(cx, out, node, ind):
+    """one statement declaring several leaf entities"""
+    l, names = node["g"], node["names"]
+    term = f"SLeaf {l} {coq_list(coq_str(n) for n in names)}"
+    if l == "LVariable":
+        text = f"{ind}{node['decl']['spec']} :: " + ", ".join(n + d for n, d in zip(names, node["decl"]["dims"]))
+    elif l == "LBoundProc":
+        text = f"{ind}{kw(cx, 'procedure')}, nopass :: " + ", ".join(f"{n} => {tg}" for n, tg in zip(names, node["decl"]["targets"]))
+    elif l == "LFinal":
+        text = f"{ind}{kw(cx, 'final')} :: " + ", ".join(names)
+    else:
+        text = f"{ind}module procedure " + ", ".join(names)
+    out.entity(cx, term, text, node["docs"], ind)
+
+
+def expand_group(node):
+    l, names, docs = node["g"], node["names"], node["docs"]
+    if l == "LVariable":
+        return [leaf(l, n, docs) for n in names]
+    return [leaf(l, n, docs if n == names[-1] else []) for n in names]
+
+
 def render_leaf(cx, out, node, ind):
+    if "g" in node:
+        return render_group(cx, out, node, ind)
     l = node["l"]
     if l == "LVariable":
         term, text = f"SLeaf LVariable [{coq_str(node['name'])}]", render_var_decl(cx, node, ind)
@@ -398,7 +441,7 @@ def render_container(cx, out, node, ind=""):
     k = node["k"]
     i2 = ind + "  "
     out.entity(cx, stmt_first(node), ind + first_line(cx, node), node["docs"], ind)
-    leaves_decl = [c for c in node["children"] if "l" in c]
+    leaves_decl = [dict(c, l=c["g"]) if "g" in c else c for c in node["children"] if "l" in c or "g" in c]
     conts = [c for c in node["children"] if "k" in c]
     spec_conts = [c for c in conts if c["k"] in ("KType", "KEnum", "KInterface")]
     proc_conts = [c for c in conts if c["k"] in ("KSubroutine", "KFunction", "KModProcImpl")]
@@ -470,11 +513,13 @@ def render_file(cx, fnode):
 
 def spec_tree(node):
     """the declared tree in the model's shape (non-generic interfaces flattened like FORD does)"""
-    if "l" in node:
+    if "l" in node and "k" not in node:
         return node
     ch = []
     for c in node["children"]:
-        if "k" in c and c["k"] == "KInterface" and not c["generic"]:
+        if "g" in c:
+            ch += expand_group(c)
+        elif "k" in c and c["k"] == "KInterface" and not c["generic"]:
             for body in c["children"]:
                 ch.append(container("KInterface", body["name"], c["docs"], [spec_tree(body)], abstract=c["abstract"]))
         else:
